@@ -91,6 +91,18 @@ CHECKS = {
          "with the model state by TLC."),
    note="Trusted: the harness's abstraction of snapshot entries (name{tags}, bucket upper bounds as strings, value tokens), TLC. The concurrent-snapshot clause is not covered yet.",
    design_ref="DESIGN.md section 6 C11"),
+ "C15": dict(
+   technique="TLA+ spec UDPTransport.tla (per-destination buffer / closed / dead socket, multi fan-out, writer's view of the message as ghost state) checked by TLC; call and fault histories on the real transports against loopback UDP sinks validated by TLC against UDPTransportTrace.tla",
+   text=("TLC checks for every history of <= 7 (8) Write / Flush / Discard / Close calls and socket faults, one destination and multi transports over 2 (3), that each sink received exactly the "
+         "accepted chunks of each flushed message as one datagram, a refused chunk is never sent, buffers are empty after Flush (also on send error, on every destination) and "
+         "Discard, fitting writes are accepted and oversize ones refused, Close is idempotent and later calls return not-open; the two pre-fix deviations and five dropped design "
+         "decisions are each shown to violate their clause. The real TUDPTransport / TMultiUDPTransport are driven through every history of <= 4 (5) calls/faults with 13000-byte units "
+         "(5 units = the limit exactly) and random histories landing on 64999/65000/65001 bytes; datagrams are segmented byte for byte into the chunks written and TLC evaluates the "
+         "same invariants over the observed results, datagrams and buffered lengths after every call. The real M3 reporter (both protocols, 1 and 3 destinations) is pushed over the "
+         "transport limit and must deliver every later batch alone."),
+   note=("Trusted: loopback UDP delivery being synchronous (a late datagram aborts the run as an infrastructure error), the (id, offset) byte pattern segmentation, the verif accessors "
+         "VerifBufLen / VerifTransports, TLC. Socket failure is injected by closing the transport's net.UDPConn underneath it."),
+   design_ref="DESIGN.md section 6 C15"),
  "C18": dict(
    technique="TLA+ spec StatsdReporter.tla (one client call per report; bucket stat name over C03's bucket pairs) checked by TLC; call logs of the real reporter over a recording statsd client validated by TLC against StatsdTrace.tla",
    text=("TLC checks, for all bucket specifications of the small ordered-token domain, that every report is one client call, that open ends are rendered as -infinity / infinity "
